@@ -3,14 +3,14 @@ from .. import gen, progx
 
 ID = "C03"
 BUILDS = ("pure", "compiled")
-RULE = "every base program up to size n with every placement of <=k deviations (shared tasks awaited by several parents, re-yielded computed futures, empty structures, None, created-but-never-yielded items/tasks, try/raise, tuple/dict/nested shapes), every flush schedule, both builds; plus deep chains/combs (see coverage.depths); non-trivial = program with a >=2-way flush decision"
+RULE = "every base program up to size n with every placement of <=k deviations (shared tasks awaited by several parents, re-yielded computed futures, empty structures, None, created-but-never-yielded items/tasks, synchronous re-entry (nested call / item.value()), try/raise, tuple/dict/nested shapes), every flush schedule, both builds; plus deep chains/combs (see coverage.depths); non-trivial = program with a >=2-way flush decision"
 EXPLANATION = "stateless DFS over every flush schedule of every program on the real scheduler (both builds); each execution checked by online monitors and lock-step reference models (R1 sequential evaluator, R2 maximal-batching machine, R3 context model)"
 ASSUMPTIONS = [
     "values are opaque tokens; task bodies have no side effects besides the harness record",
     "exhaustive only within the alphabet and bounds listed in coverage.bounds",
 ]
-MENU = ["leaf:sh", "leaf:re", "ins:yempty", "ins:ynone", "ins:mkitem", "ins:mkchild", "wrap:try", "ins:raise", "item:err", "shape:T", "shape:D", "shape:nest", "leaf:n"]
-CATS = ["resumed-uncomputed", "step-count", "step-after-computed", "task-computed-twice", "task-not-computed", "start-order", "started-extra", "started-missing", "scheduler-residue", "hang", "worker-died", "r2-started"]
+MENU = ["ins:sync", "ins:iv", "leaf:sh", "leaf:re", "ins:yempty", "ins:ynone", "ins:mkitem", "ins:mkchild", "wrap:try", "ins:raise", "item:err", "shape:T", "shape:D", "shape:nest", "leaf:n"]
+CATS = ["resumed-uncomputed", "step-count", "step-after-computed", "task-computed-twice", "task-not-computed", "awaited-not-computed", "start-order", "started-extra", "started-missing", "scheduler-residue", "hang", "worker-died", "r2-started"]
 LADDER = {"quick": [(5, 0, ["call"]), (4, 1, ["call"]), (3, 2, ["call"])], "thorough": [(6, 0, ["call"]), (5, 1, ["call"]), (4, 2, ["call"]), (2, 3, ["call"])]}
 SPEC = {"r1": True, "r2": True}
 
